@@ -170,7 +170,7 @@ CORPUS = [
     "crt 1 22 21", "crt 1 -8 25", "crt 2 22 1 21 5", "crt 3 1 2 3 4 6 10", "crt 3 2 4 0 4 6 10",
     "isnth -1 2 4", "isnth -9 2 12", "isnth 3 2 4", "isnth 2 0 4", "isnth 1 0 7",
     "lehman 35", "lehman 21", "lehman 1000009", "lehman 999985999949",
-    "isqr 10 -9", "isqr -40 -39", "isqr 10 9",
+    "isqr 5 -9", "isqr -40 -39", "isqr 5 9",
     "powm -3 3 -5", "powm -7 1 -5", "mppowm -3 3 -5", "powm 3 3 -5",
     "nthroot 1 2 8", "nthroot 9 2 16", "nthroot -1 2 4", "nthroot -9 2 12", "nthroot 4 2 15",
     # out-of-domain behaviour that model and library must still agree on
@@ -240,6 +240,8 @@ def classify(case, cfg, what):
         return "C32/nthroot_mod_list-power-of-two-not-reduced"
     if cfg == "boost" and c == "isqr" and a[1] < 0 and "EXN:7" in what:
         return "C32/boost-is_quad_residue-negative-modulus-throws"
+    if cfg == "boost" and c in ("powm", "mppowm") and a[2] < 0:
+        return "C32/boost-powm-negative-modulus"
     if cfg == "boost" and c == "kro" and a[1] == 0:
         return "C32/boost-kronecker-zero-throws"
     words = [w for w in what.replace(":", " ").replace(",", " ").split() if w.isidentifier()]
